@@ -28,6 +28,7 @@ def run(ck, fb):
     r10c(ck, fb)
     r10d(ck, fb)
     r10e(ck, fb)
+    r10f(ck, fb)
 
 
 def r10a(ck, fb):
@@ -238,3 +239,41 @@ def r10e(ck, fb):
             t = Taint(sn, place_src=field_place_src('listener'))
             a = sd[0][3]
             ck.require(t.op_tainted(a['ops'][1]), 'R10e', 'Subscriber::notify:client-set', sd[0][0].where(), 'the notified client set is not the key\'s subscriber set')
+
+
+def r10f(ck, fb):
+    ck.rule('R10f', 'Subscriber removers (remove_subscribe, remove_client_subscribe, remove_config_key): one member is taken out of a per-key / '
+                    'per-client set unconditionally (no size test in front of HashSet::remove), and a whole map entry is scheduled for removal '
+                    '(Vec::push of the key / a flag set to true) only under set.is_empty() == true evaluated after that removal - otherwise an '
+                    'unsubscribe by one client (or by a client that never subscribed) drops the other subscribers of the key')
+    n_drop = 0
+    for fn in ('remove_subscribe', 'remove_client_subscribe', 'remove_config_key'):
+        b = ck.body(SB + fn, 'R10f')
+        if not b:
+            continue
+        rms = b.calls(r'HashSet::<T, S, A>::remove$')
+        ck.require(len(rms) >= 1, 'R10f', '%s:removes-member' % fn, b.where(), '%s no longer removes the member from the set' % fn)
+        for s in rms:
+            sized = [cfg.fmt_atom(a) for a in cfg.guard_atoms(b, s.bb)
+                     if (a[0] == 'cmp' and ('len' in cfg.fmt_desc(a[2]) or 'len' in cfg.fmt_desc(a[3]))) or (a[0] == 'call' and (a[1] or '').endswith('is_empty'))]
+            ck.require(not sized, 'R10f', '%s:member-removal-unconditional' % fn, s.where(),
+                       'the member is only removed when %s: in the other case the entry is handled as if this member were the last one' % sized)
+        drops = []
+        for s in b.calls(r'Vec::<T, A>::push$|Vec::<.*>::push$'):
+            drops.append((s.bb, s.where()))
+        for (i, j, st) in b.stmts():
+            rv = st.get('rv')
+            if isinstance(st.get('d'), int) and rv and rv['k'] == 'use' and 'c' in rv['op'] and rv['op']['c'].get('ty') == 'bool' \
+                    and rv['op']['c'].get('v') in (True, 'true', 1) and b.local_ty(st['d']) == 'bool' and b.locals[st['d']].get('n'):
+                drops.append((i, b.where(i)))
+        for (bb, where) in drops:
+            n_drop += 1
+            g = [a for a in cfg.guard_atoms(b, bb) if a[0] == 'call' and (a[1] or '').endswith('HashSet::<T, S, A>::is_empty') and a[2] is True]
+            ok = bool(g)
+            # the emptiness test follows a member removal on the same path
+            if ok:
+                tb = g[0][4] if len(g[0]) > 4 else None
+                ok = any(bb in cfg.reach_from(b, [r.bb]) for r in rms)
+            ck.require(ok, 'R10f', '%s:drop-only-when-empty' % fn, where,
+                       'a whole entry is scheduled for removal without set.is_empty() having been found true after the member was removed')
+    ck.floor('R10f', 'whole-entry drop sites', n_drop, 4)
